@@ -30,6 +30,19 @@ def run(chk):
     for sp in SPECS:
         one(chk, repo, sp)
         abnormal(chk, repo, sp)
+    # the client session hears about a lost connection through the reader the protocol holds: connection_lost() feeds it EOF, which is what
+    # wakes a parked receive() with CLOSED / 1006 - so nothing but connection_lost() itself (after that) and set_parser() may drop the reader
+    CPM = "aiohttp/client_proto.py"
+    K.owners(chk, "C13.lost", repo, [CPM], "_payload_parser", {"ResponseHandler.__init__": "no reader yet", "ResponseHandler.set_parser": "installs the reader",
+                                                                "ResponseHandler.connection_lost": "drops the reader after feeding it EOF"},
+             "the installed WebSocket reader stays reachable until the connection is lost", classes=("ResponseHandler",))
+    cl_ = repo.func(CPM, "ResponseHandler.connection_lost")
+    fe = [c for c in prog.calls_in(cl_.node) if norm.raw(c.func) == "self._payload_parser.feed_eof"]
+    drops = [a for a in ast.walk(cl_.node) if isinstance(a, ast.Assign) and norm.raw(a.targets[0]) == "self._payload_parser"]
+    if fe and all(d.lineno > fe[0].lineno for d in drops):
+        chk.ok("C13.lost", fe[0], "connection_lost() feeds EOF to the installed reader before it lets go of it")
+    else:
+        chk.violation("C13.lost", cl_, "self._payload_parser.feed_eof()", "before self._payload_parser = None", "a lost connection is not reported to the WebSocket reader: a parked receive() is never woken")
     # no data frame follows the close frame: decided on the writer (shared with C11)
     from rules import C11
 
